@@ -17,9 +17,9 @@ import (
 type C03Op struct {
 	Kind string `json:"kind"` // msg | exit | inspect | down | log | failprio (a High/Max priority send to nobody, which fails)
 	// Plain (msg, prio 0): Send instead of SendWithPriority(Normal)
-	Plain bool `json:"plain,omitempty"`
-	Mode string `json:"mode"` // pid | name | alias
-	Prio int    `json:"prio"`
+	Plain bool   `json:"plain,omitempty"`
+	Mode  string `json:"mode"` // pid | name | alias
+	Prio  int    `json:"prio"`
 }
 
 type C03Sender struct {
